@@ -50,14 +50,16 @@ def pipeline_operands(sc):
 
 
 def build(rng):
-    mode = rng.choice(["base", "base", "integrate", "multiply", "differentiate", "evidence", "conjugate", "concatenate"])
+    mode = rng.choice(["base", "base", "integrate", "multiply", "intmul", "intmul", "differentiate", "evidence", "conjugate", "concatenate"])
     monotone = rng.random() < 0.6
     if mode == "differentiate":
         o = gen.random_opts(rng, kinds=["poly"], monotone=False)
         sc, g = gen.gen_circuit(rng, **o)
         return mode, SF.differentiate(sc, order=rng.choice([1, 2])), g, False
-    if mode == "multiply":
+    if mode in ("multiply", "intmul"):
         kinds = [rng.choice(["emb", "cat_logits", "gau", "poly"])] if rng.random() < 0.5 else ["emb", "cat_probs", "cat_logits", "gau", "poly"]
+        if mode == "intmul":
+            kinds = [rng.choice(["emb", "emb", "cat_softmax", "cat_logits"])]
         o = gen.random_opts(rng, kinds=kinds, monotone=monotone, regular=True, sd=True)
         o["nvars"] = rng.choice([1, 2, 2, 3])
         o["nout"] = 1
@@ -68,7 +70,10 @@ def build(rng):
         s1, g = gen.gen_circuit(rng, **o)
         s2 = s1 if rng.random() < 0.3 else gen.gen_circuit(rng, **dict(o, like=g))[0]
         try:
-            return mode, SF.multiply(s1, s2), g, monotone
+            sp = SF.multiply(s1, s2)
+            if mode == "intmul":
+                sp = SF.integrate(sp)
+            return mode, sp, g, monotone
         except Exception:
             return "base", s1, g, monotone
     kinds = INTEGRABLE if mode == "integrate" else KINDS
